@@ -1,4 +1,5 @@
 import PRV.Model.Alloc
+import PRV.Gen.Wiring
 import Mathlib.Tactic.Linarith
 import Mathlib.Tactic.SplitIfs
 import Mathlib.Tactic.Ring
@@ -382,6 +383,22 @@ theorem partial_zero_duration (pop : List Miner) (need : Rat) :
       · exact ih n
   unfold allocatePartial partialItems
   simp [partialLoop, hfree]
+
+
+/-! ### the vetting threshold the eligibility test relies on (regenerated wiring) -/
+
+def lookupW (l : List (String × String)) (k : String) : Option String := (l.find? (·.1 = k)).map (·.2)
+
+/-- "only miners past vetting receive tasks": the threshold the proxy counts accepted shares against and the one the
+scheduler reports are both the configured `minerVettingShares`, and the destination-cache size is a different
+parameter that goes only to `maxCachedDests` -/
+theorem source_vetting_threshold_wired :
+    lookupW PRV.Gen.Wiring.handlerProxyArgs "vettingShares" = some "minerVettingShares" ∧
+    lookupW PRV.Gen.Wiring.handlerProxyArgs "maxCachedDests" = some "maxCachedDests" ∧
+    lookupW PRV.Gen.Wiring.handlerSchedulerArgs "minerVettingShares" = some "minerVettingShares" ∧
+    lookupW PRV.Gen.Wiring.proxyFields "vettingShares" = some "vettingShares" ∧
+    lookupW PRV.Gen.Wiring.proxyFields "maxCachedDests" = some "maxCachedDests" ∧
+    lookupW PRV.Gen.Wiring.schedulerFields "minerVettingShares" = some "minerVettingShares" := by decide
 
 /-! ### non-vacuity -/
 example : fullLoop [⟨"a", 100, 0, 0⟩, ⟨"b", 60, 0, 0⟩, ⟨"d", 30, 0, 0⟩] 140 = ([("a", 100), ("d", 30)], 10) := by
